@@ -30,6 +30,8 @@ TagVals == { <<118>>, <<109, 58, 115, 116, 111, 112, 64, 50, 48, 50, 48, 45, 48,
              <<110, 111, 97, 116>>, <<>>, <<109, 58, 97, 64, 98, 64, 50, 48, 50, 48, 45, 48, 49, 45, 48, 49>>,             \* noat ; (empty) ; m:a@b@2020-01-01
              <<109, 58, 32, 111, 112, 64, 50, 48, 50, 52, 45, 48, 50, 45, 50, 57>>, <<58, 64, 50, 48, 50, 48, 45, 48, 49, 45, 48, 49>> }  \* "m: op@2024-02-29" ; ":@2020-01-01"
 TagKeys == { <<107>>, <<113>> }
+Run(lo, n) == List([j \in 1..n |-> IntV(FromInt(lo + j - 1))])
+LongLists == { Run(0, 20), Run(100, 20), Run(19, 20), Run(1, 20), Run(0, 16), Run(16, 16), Run(5, 17), Run(0, 15), Run(200, 20), Run(201, 20) }
 TagLists == { s \in Seqs({ Tag(k, v) : k \in TagKeys, v \in {<<118>>, <<119>>} }, 2) : TRUE }
             \cup { <<Tag(<<107>>, <<>>), Tag(<<107>>, <<118>>)>>, <<Tag(<<107>>, <<118>>), Tag(<<107>>, <<>>)>> }      \* the first match wins, empty or not
             \cup { <<Tag(<<107>>, v)>> : v \in TagVals } \cup { <<Tag(<<113>>, <<118>>), Tag(<<107>>, v)>> : v \in TagVals }
@@ -46,6 +48,9 @@ Cases ==
   CASE FAMILY = "sets" -> { <<C(f, <<a, b>>), IF f = "intersect" THEN Intersect(a, b) ELSE Difference(a, b)>> : f \in {"intersect", "difference"}, a \in Lists(StrElems), b \in Lists(StrElems) }
                           \cup { <<C(f, <<a, b>>), IF f = "intersect" THEN Intersect(a, b) ELSE Difference(a, b)>> : f \in {"intersect", "difference"}, a \in Lists(IntElems), b \in Lists(IntElems) }
                           \cup { <<C("unique_size", <<a>>), UniqueSize(a)>> : a \in Lists(StrElems) \cup Lists(IntElems) }
+                          \* long lists (a resource's security groups against an allow-list): 20 members, sharing no / the last / every member
+                          \cup { <<C(f, <<a, b>>), IF f = "intersect" THEN Intersect(a, b) ELSE Difference(a, b)>> : f \in {"intersect", "difference"}, a \in LongLists, b \in LongLists }
+                          \cup { <<C(f, <<a, b>>), IF f = "intersect" THEN Intersect(a, b) ELSE Difference(a, b)>> : f \in {"intersect", "difference"}, a \in Lists(IntElems), b \in LongLists }
     [] FAMILY = "text" -> { <<C("normalize", <<S(t)>>), Normalize(S(t))>> : t \in NormTexts }
                           \cup { <<C("glob", <<S(t), S(p)>>), Bool(Glob(t, p))>> : t \in GlobTexts, p \in GlobPats }
     [] FAMILY = "cidr" -> { <<C("contains_addr", <<S(NetText(n)), S(AddrText(a))>>), Bool(NetContainsAddr(n, a))>> : n \in Nets, a \in Addrs }
